@@ -49,17 +49,6 @@ def recipe(c: Check):
                 c.broken.append(dict(kind="coverage", name="driver sys never exercised %s" % name, detail=str(cs)))
     # The recorded finding C02:plugin+compression:keepalive-second-request is emitted by the sys driver itself
     # (impl_failures, stable key) whenever the replay reproduces it; KNOWN_FINDINGS.txt turns it into KNOWN-FINDING.
-    # A finding reported to the lead but not (yet) listed in KNOWN_FINDINGS.txt: kept out of the verdict, visible as a note.
-    # Once listed it is printed as KNOWN-FINDING; if /repo gets repaired instead, the CRegroup cases stop matching the model.
-    pending = {"C02:http-group:rejoin-same-member-name-reuses-former-backend"}
-    listed = {k["key"] for k in c.known_findings() if k["property"] == PID}
-    keep = []
-    for f in c.failures:
-        if f.get("key") in pending and f.get("key") not in listed:
-            c.notes.append("reproduced, reported to the lead, not yet listed in KNOWN_FINDINGS: %s (%s)" % (f.get("key"), f.get("case")))
-        else:
-            keep.append(f)
-    c.failures = keep
     return c.finish(
         rule="http driver: real vhost.HTTPReverseProxy behind a net/http server built as server/service.go does; raw-socket user "
              "(generated methods, percent-encoded paths, raw queries incl. ';', '?' alone and broken escapes, multi-valued / mixed-case / "
